@@ -52,6 +52,7 @@ def src_once(check, proj):
     for qn in ("modeldisc.fvm1d", "modeldisc.fvm2dcart"):
         c = proj.cls(qn)
         f = proj.resolve(c, "add_source")
+        inplace = []
         for pattern in ([True, False, True], [False, True, False]):
             A = Algebra()
             A.fold_enabled = False
@@ -64,6 +65,7 @@ def src_once(check, proj):
             so = SelfObj(c, {"neq": 3, "model": ObjStub("model", {"source": srcs}), "mesh": ObjStub("mesh", {"centers": lambda: xc}),
                              "qdata": list(qd), "residual": list(R)})
             it.call_function(f, [so])
+            inplace += it.ev.inplace_owned
             res = so.attrs["residual"]
             ok = True
             why = ""
@@ -77,21 +79,13 @@ def src_once(check, proj):
                 ok, why = False, "conservative data are modified"
             check.record("SRC-ONCE", "%s [sources %s]" % (f.qualname, ["S" if x else "None" for x in pattern]), ok,
                          "residual[i] += source[i](centres, conservative data) for each given entry, None skipped, nothing else" if ok else why, f.loc(), key="add-" + "".join("1" if x else "0" for x in pattern))
-        # in-place discipline: an array returned by a source function is owned by that function
-        # (it may be a stored profile or q[k] itself) and must never be the target of an
-        # in-place update
-        owned = set()
-        for n in ast.walk(f.node):
-            if isinstance(n, ast.Assign) and len(n.targets) == 1 and isinstance(n.targets[0], ast.Name):
-                if any(isinstance(k, ast.Call) and "source" in unparse(k.func) for k in ast.walk(n.value)) and isinstance(n.value, ast.Call):
-                    owned.add(n.targets[0].id)
-        for n in ast.walk(f.node):
-            if isinstance(n, ast.AugAssign):
-                base = n.target
-                while isinstance(base, ast.Subscript):
-                    base = base.value
-                if isinstance(base, ast.Name) and base.id in owned:
-                    check.violation("SRC-ONCE", f.qualname, "accumulates in place into `%s`, the array returned by (and owned by) the source function: a source returning a stored array is corrupted and drifts with call history" % base.id, f.loc(), key="inplace")
+        # (in-place updates of an array returned by a source function are collected by the
+        # abstract interpreter: such an array is owned by the source function)
+        if inplace:
+            ln, nm = inplace[0]
+            check.violation("SRC-ONCE", f.qualname, "line %d accumulates in place into `%s`, the array returned by (and owned by) the source function: a source returning a stored array is corrupted and its contribution drifts with call history" % (ln, nm), f.loc(), key="inplace")
+        else:
+            check.ok("SRC-ONCE", f.qualname, "no in-place update of an array returned by a source function", f.loc(), nontrivial=False)
 
 
 def src_store(check, proj):
